@@ -17,49 +17,93 @@ INFO_REMOVING = {"delete", "cut-after", "cut-before", "drop-keys", "unknown-suit
                  "no-keys"}
 
 
-def conv_fingerprint(out, conn):
-    """everything exported for one connection: the packets of its conversation, in order"""
-    pkts = wire.read_output(out)
-    mine = [(us, p) for us, p in pkts if p["proto"] == 6 and
-            {(p["src"], p["sport"]), (p["dst"], p["dport"])} >= {(conn.cip, conn.cport)} and
-            conn.sip in (p["src"], p["dst"])]
-    return [(us, p["src"], p["sport"], p["dst"], p["dport"], p["flags"], p["seq"], p["ack"], bytes(p["payload"]))
-            for us, p in mine]
+def conn_of(mx, k):
+    kind, j = mx.kinds[k]
+    return (mx.tls[j]["conn"], 6) if kind == "tls" else (mx.quic[j]["conn"], 17)
 
 
-def victim_streams(out, conn):
-    try:
-        _, convs, _ = e2e.decode(out)
-    except wire.FrameError as e:
-        return None, f"bad-frame:{e}"
-    c = e2e.find_conv(convs, conn)
-    if c is None:
-        return (b"", b""), None
-    return (c["c2s"], c["s2c"]), None
+def fingerprint(pkts, mx, k):
+    conn, proto = conn_of(mx, k)
+    return e2e.flow_packets(pkts, conn.cip, conn.cport, conn.sip, proto)
 
 
-def make_faults(sc, rng, exhaustive):
-    """→ list of (kind, description, items, keylog_lines). Victim is connection 0."""
+def victim_view(pkts, mx):
+    """what the victim (connection 0) contributes: TLS → (c2s, s2c) bytes; QUIC → (tuple of datagrams c→s, s→c)"""
+    conn, proto = conn_of(mx, 0)
+    if proto == 6:
+        convs = wire.tcp_conversations(pkts)
+        c = e2e.find_conv(convs, conn)
+        return (c["c2s"], c["s2c"]) if c else (b"", b"")
+    d = {False: [], True: []}
+    for row in e2e.flow_packets(pkts, conn.cip, conn.cport, conn.sip, 17):
+        if row[10]:
+            d[row[3] == conn.sip].append(row[10])
+    return (tuple(d[False]), tuple(d[True]))
+
+
+def victim_truth(mx):
+    kind, j = mx.kinds[0]
+    if kind == "tls":
+        t = mx.tls[j]["truth"]
+        return (t[0], t[1])
+    ex = mx.quic[j]["expect"]
+    return (tuple(b for _, d, b in ex if not d), tuple(b for _, d, b in ex if d))
+
+
+def is_prefix(a, b):
+    return a == b[:len(a)]
+
+
+def is_subsequence(a, b):
+    it = iter(b)
+    return all(any(x == y for y in it) for x in a)
+
+
+def contributes_only_true_data(got, truth):
+    """TLS (bytes): the exported stream is a prefix of the sender's stream.
+    QUIC (tuple of datagrams): every exported datagram is one of the sender's datagrams, in order — QUIC datagrams are
+    decrypted independently and the protocol itself runs with gaps (C02: 'packet numbers with gaps'), so after a lost
+    datagram the later ones still appear; nothing else (no ciphertext, no invented or merged payload) may appear."""
+    if isinstance(truth, tuple):
+        return is_subsequence(got, truth)
+    return is_prefix(got, truth)
+
+
+def make_faults(mx, rng, exhaustive):
+    """→ list of (kind, description, items, keylog_lines). Victim is connection 0 (TLS or QUIC)."""
     faults = []
-    items, owners = sc.items, sc.owners
-    vic = [j for j, (ci, _) in enumerate(owners) if ci == 0]
-    conn = sc.parts[0][1]
-    kl = sc.keylog
-    vkl = [j for j, o in enumerate(sc.keylog_owner) if o == 0]
+    items, owners = mx.items, mx.owners
+    vic = [j for j, o in enumerate(owners) if o == 0]
+    conn, proto = conn_of(mx, 0)
+    kl = mx.keylog
+    vlines = set(mx.tls[mx.kinds[0][1]]["keylog"] if proto == 6 else mx.quic[mx.kinds[0][1]]["keylog"])
+    vkl = [j for j, l in enumerate(kl) if l in vlines]
+
+    def payload_of(j):
+        k = vic.index(j)
+        if proto == 6:
+            return conn.pkts[k][4]
+        return wire.parse_frame(items[j][2])["payload"]
 
     def rebuilt(j, payload):
-        ci, k = owners[j]
-        t, f, d, seq, _ = conn.pkts[k]
-        return ("pkt", items[j][1], conn.frame(d, seq, payload))
+        k = vic.index(j)
+        if proto == 6:
+            t, f, d, seq, _ = conn.pkts[k]
+            return ("pkt", items[j][1], conn.frame(d, seq, payload))
+        if conn.dirs[k]:
+            f = wire.udp_frame(conn.smac, conn.cmac, conn.sip, conn.cip, conn.sport, conn.cport, payload)
+        else:
+            f = wire.udp_frame(conn.cmac, conn.smac, conn.cip, conn.sip, conn.cport, conn.sport, payload)
+        return ("pkt", items[j][1], f)
 
     pos = vic if exhaustive else rng.sample(vic, min(len(vic), 4))
     for j in pos:
         faults.append(("delete", f"delete packet {j}", items[:j] + items[j + 1:], kl))
         faults.append(("cut-after", f"victim flow ends after packet {j} (capture ends mid-connection)",
-                       [it for q, it in enumerate(items) if q <= j or owners[q][0] != 0], kl))
+                       [it for q, it in enumerate(items) if q <= j or owners[q] != 0], kl))
         faults.append(("cut-before", f"victim flow starts at packet {j} (capture starts mid-connection)",
-                       [it for q, it in enumerate(items) if q >= j or owners[q][0] != 0], kl))
-        payload = conn.pkts[owners[j][1]][4]
+                       [it for q, it in enumerate(items) if q >= j or owners[q] != 0], kl))
+        payload = bytes(payload_of(j))
         if payload:
             b = rng.randrange(len(payload) * 8)
             flipped = bytearray(payload)
@@ -67,12 +111,14 @@ def make_faults(sc, rng, exhaustive):
             faults.append(("bitflip", f"flip bit {b} of packet {j}", items[:j] + [rebuilt(j, bytes(flipped))] + items[j + 1:], kl))
             faults.append(("overwrite", f"overwrite payload of packet {j}",
                            items[:j] + [rebuilt(j, rng.randbytes(len(payload)))] + items[j + 1:], kl))
-            for cutlen in {0, 1, 5, len(payload) // 2, len(payload) - 1} - {len(payload)}:
+            cuts = {1, 5, len(payload) // 2, len(payload) - 1, rng.randrange(1, max(2, min(len(payload), 60)))}
+            if proto == 6:
+                cuts.add(0)
+            for cutlen in cuts - {len(payload)}:
                 if cutlen >= 0:
                     faults.append(("shorten", f"shorten packet {j} to {cutlen} bytes",
                                    items[:j] + [rebuilt(j, payload[:cutlen])] + items[j + 1:], kl))
-    # key-log faults
-    subsets = range(1, 1 << len(vkl)) if len(vkl) <= 4 else [rng.getrandbits(len(vkl)) | 1 for _ in range(4)]
+    subsets = range(1, 1 << len(vkl)) if len(vkl) <= 4 else [rng.getrandbits(len(vkl)) | 1 for _ in range(6)]
     for m in subsets:
         drop = {vkl[b] for b in range(len(vkl)) if m >> b & 1}
         faults.append(("drop-keys" if len(drop) < len(vkl) else "no-keys", f"remove key-log lines {sorted(drop)}", items,
@@ -85,18 +131,18 @@ def make_faults(sc, rng, exhaustive):
         else:
             wrong.append(l)
     faults.append(("wrong-keys", "victim secrets replaced by random ones", items, wrong))
-    # unknown suite id in ServerHello: rewrite the first server flight
-    for j in vic:
-        k = owners[j][1]
-        t, f, d, seq, payload = conn.pkts[k]
-        if d == 1 and payload[:1] == b"\x16" and payload[5:6] == b"\x02" and len(payload) > 5 + 4 + 2 + 32:
-            sid_len = payload[5 + 4 + 2 + 32]
-            off = 5 + 4 + 2 + 32 + 1 + sid_len
-            if off + 2 <= len(payload):
-                p2 = payload[:off] + b"\x7f\x7f" + payload[off + 2:]
-                faults.append(("unknown-suite", "unknown cipher-suite id in ServerHello",
-                               items[:j] + [rebuilt(j, p2)] + items[j + 1:], kl))
-            break
+    if proto == 6:
+        for j in vic:      # unknown suite id in ServerHello
+            k = vic.index(j)
+            t, f, d, seq, payload = conn.pkts[k]
+            if d == 1 and payload[:1] == b"\x16" and payload[5:6] == b"\x02" and len(payload) > 5 + 4 + 2 + 32:
+                sid_len = payload[5 + 4 + 2 + 32]
+                off = 5 + 4 + 2 + 32 + 1 + sid_len
+                if off + 2 <= len(payload):
+                    p2 = payload[:off] + b"\x7f\x7f" + payload[off + 2:]
+                    faults.append(("unknown-suite", "unknown cipher-suite id in ServerHello",
+                                   items[:j] + [rebuilt(j, p2)] + items[j + 1:], kl))
+                break
     return faults
 
 
@@ -136,56 +182,66 @@ def one(job):
     import random
     import logging
     logging.disable(logging.CRITICAL)
-    seed, combos, exhaustive = job
+    seed, victim_kind, ntls, nquic, exhaustive = job
     rng = random.Random(seed)
-    short_app = [[(0, rng.randbytes(rng.randrange(1, 80))), (1, rng.randbytes(rng.randrange(1, 200))),
-                  (0, rng.randbytes(rng.randrange(0, 50))), (1, rng.randbytes(rng.randrange(1, 90)))] for _ in combos]
-    sc = e2e.Scenario(rng, combos, app=short_app)
-    base = tool.run(sc.capture(), sc.keylog_text())
-    res = {"desc": sc.describe(), "n_faults": 0, "kinds": {}, "fails": []}
+    short = lambda: [(0, rng.randbytes(rng.randrange(1, 80))), (1, rng.randbytes(rng.randrange(1, 200))),
+                     (0, rng.randbytes(rng.randrange(0, 50))), (1, rng.randbytes(rng.randrange(1, 90)))]
+    tls_n = ntls + (1 if victim_kind == "tls" else 0)
+    quic_n = nquic + (1 if victim_kind == "quic" else 0)
+    mx = e2e.Mixed(rng, [e2e.random_combo(rng) for _ in range(tls_n)], n_quic=quic_n, noise=False,
+                   tls_app=[short() for _ in range(tls_n)])
+    if victim_kind == "quic":       # make the victim connection index 0
+        qk = [k for k, kd in enumerate(mx.kinds) if kd[0] == "quic"][0]
+        perm = [qk] + [k for k in range(len(mx.kinds)) if k != qk]
+        inv = {old: new for new, old in enumerate(perm)}
+        mx.kinds = [mx.kinds[k] for k in perm]
+        mx.owners = [inv[o] for o in mx.owners]
+    base = tool.run(mx.capture(), mx.keylog_text())
+    res = {"desc": mx.describe(), "victim": victim_kind, "n_faults": 0, "kinds": {}, "fails": []}
+    blob0 = {"capture_hex": mx.capture().hex(), "keylog": mx.keylog_text(), "argv": []}
     if base.crashed:
-        res["fails"].append(("baseline", "fault-free run", base.signature(), sc.replay_blob()))
+        res["fails"].append(("baseline", "fault-free run", base.signature(), blob0))
         return res
-    conns = [c for _, c, _ in sc.parts]
     try:
-        base_fp = [conv_fingerprint(base.out, c) for c in conns]
+        bp = wire.read_output(base.out)
+        base_fp = [fingerprint(bp, mx, k) for k in range(len(mx.kinds))]
     except wire.FrameError as e:
-        res["fails"].append(("baseline", "fault-free run", f"bad-frame:{e}", sc.replay_blob()))
+        res["fails"].append(("baseline", "fault-free run", f"bad-frame:{e}", blob0))
         return res
-    truth = sc.truths[0]
-    faults = make_faults(sc, rng, exhaustive)
-    t_end = sc.items[-1][1]
-    faults.append(("http-on-443", "plain HTTP on port 443 added", sc.items + extra_traffic(rng, t_end), sc.keylog))
+    truth = victim_truth(mx)
+    faults = make_faults(mx, rng, exhaustive)
+    t_end = mx.items[-1][1]
+    faults.append(("http-on-443", "plain HTTP on port 443 added", mx.items + extra_traffic(rng, t_end), mx.keylog))
     for _ in range(3 if exhaustive else 1):
         noise = udp_noise(rng, t_end, rng.randrange(1, 30))
-        pos = rng.randrange(len(sc.items) + 1)
+        pos = rng.randrange(len(mx.items) + 1)
         faults.append(("udp-noise", f"{len(noise)} arbitrary UDP datagrams inserted at {pos}",
-                       sc.items[:pos] + noise + sc.items[pos:], sc.keylog))
+                       mx.items[:pos] + noise + mx.items[pos:], mx.keylog))
+    eps = []
+    for k in range(len(mx.kinds)):
+        c, proto = conn_of(mx, k)
+        eps.append({"cip": c.cip.hex(), "cport": c.cport, "sip": c.sip.hex(), "proto": proto})
     for kind, what, items, kl in faults:
         res["n_faults"] += 1
         res["kinds"][kind] = res["kinds"].get(kind, 0) + 1
         cap = wire.pcapng(items)
         kls = "\n".join(kl) + "\n"
         r = tool.run(cap, kls)
-        blob = {"capture_hex": cap.hex(), "keylog": kls, "argv": [], "fault": what, "kind": kind,
-                "endpoints": [{"cip": c.cip.hex(), "cport": c.cport, "sip": c.sip.hex(), "sport": c.sport} for c in conns],
-                "truth_victim": {"c2s": truth[0].hex(), "s2c": truth[1].hex()},
-                "bystander_fp": [[list(map(lambda x: x.hex() if isinstance(x, bytes) else x, row)) for row in fp] for fp in base_fp[1:]]}
+        blob = {"capture_hex": cap.hex(), "keylog": kls, "argv": [], "fault": what, "kind": kind, "endpoints": eps,
+                "truth_victim": [[x.hex() for x in t] if isinstance(t, tuple) else t.hex() for t in truth],
+                "baseline": blob0}
         if r.crashed:
             res["fails"].append((kind, what, r.signature(), blob))
             continue
         try:
-            for i, c in enumerate(conns[1:], 1):
-                if conv_fingerprint(r.out, c) != base_fp[i]:
-                    res["fails"].append((kind, what, f"bystander-changed:{i}", blob))
-                    break
-            else:
-                if kind in INFO_REMOVING:
-                    (c2s, s2c), err = victim_streams(r.out, conns[0])
-                    if err:
-                        res["fails"].append((kind, what, err, blob))
-                    elif not (truth[0].startswith(c2s) and truth[1].startswith(s2c)):
-                        res["fails"].append((kind, what, "victim-not-prefix", blob))
+            pk = wire.read_output(r.out)
+            bad = next((k for k in range(1, len(mx.kinds)) if fingerprint(pk, mx, k) != base_fp[k]), None)
+            if bad is not None:
+                res["fails"].append((kind, what, f"bystander-changed:{bad}:{mx.kinds[bad][0]}", blob))
+            elif kind in INFO_REMOVING:
+                got = victim_view(pk, mx)
+                if not (contributes_only_true_data(got[0], truth[0]) and contributes_only_true_data(got[1], truth[1])):
+                    res["fails"].append((kind, what, "victim-not-prefix", blob))
         except wire.FrameError as e:
             res["fails"].append((kind, what, f"bad-frame:{e}", blob))
     return res
@@ -195,20 +251,19 @@ def explore(ctx, scale=1):
     rng = ctx.rng
     n = ctx.n(10, 400) * scale
     jobs = []
-    reps = e2e.class_representatives(rng)
     for i in range(n):
-        victim = reps[i % len(reps)] if i < len(reps) and ctx.thorough() else e2e.random_combo(rng)
-        bys = [e2e.random_combo(rng) for _ in range(rng.randrange(1, 3))]
-        jobs.append((rng.getrandbits(48), [victim] + bys, i < ctx.n(3, 60)))
+        vk = "quic" if i % 3 == 2 else "tls"
+        jobs.append((rng.getrandbits(48), vk, rng.randrange(0, 3), rng.randrange(0, 2) + (1 if i % 2 else 0), i < ctx.n(3, 60)))
     results = tool.pmap(one, jobs) if ctx.thorough() else tool.pmap(one, jobs, procs=8)
     o = ctx.oracle.setdefault("fault-enumeration", {"runs": 0, "violations": 0})
-    for (seed, combos, exh), res in zip(jobs, results):
+    for job, res in zip(jobs, results):
+        seed = job[0]
         o["runs"] += res["n_faults"]
         for k, v in res["kinds"].items():
             ctx.distribution.setdefault("fault", {})
             ctx.distribution["fault"][k] = ctx.distribution["fault"].get(k, 0) + v
-        ctx.hist("victim_version", res["desc"][0]["version"])
-        ctx.hist("bystanders", len(combos) - 1)
+        ctx.hist("victim", res["victim"])
+        ctx.hist("bystanders", f"tls={job[2]} quic={job[3]}")
         ctx.evaluations += res["n_faults"]
         for k in range(res["n_faults"]):
             ctx.distinct.add((seed, k).__hash__().to_bytes(8, "big", signed=True))
@@ -217,15 +272,15 @@ def explore(ctx, scale=1):
             short = sig.split(" ")[0]
             ctx.fail(f"C03:{{{kind}}}:{short.split(':')[0] + (':' + short.split(':', 1)[1] if short.startswith('crash') else '')}",
                      f"fault '{what}' on the victim flow: {sig}",
-                     {"seed": seed, "victim": res["desc"][0], "fault": what, **blob},
+                     {"seed": seed, "scenario": res["desc"], "victim_kind": res["victim"], "fault": what, **blob},
                      expected="run ends normally, bystanders unchanged, victim ⊑ prefix", actual=sig,
                      how="bin/check C03 --replay <this file>")
         if not res["fails"]:
-            ctx.sample({"victim": res["desc"][0]["version"] + "/" + res["desc"][0]["name"], "faults": res["kinds"]}, cap=3)
+            ctx.sample({"scenario": res["desc"], "victim": res["victim"], "faults": res["kinds"]}, cap=3)
 
 
 def run(ctx):
-    ctx.rule = ("a victim TLS connection (any version/suite) + 1–2 healthy bystander connections in one capture; every "
+    ctx.rule = ("a victim connection (TLS of any version/suite, or QUIC v1 with random features) + 1–4 healthy TLS and QUIC bystander connections interleaved in one capture; every "
                 "single fault from {delete packet k, cut after k, start at k, flip a bit / overwrite / shorten payload k, "
                 "remove every non-empty subset of the victim's key-log lines, random secrets, unknown suite id in "
                 "ServerHello, plain HTTP on 443, 1–30 arbitrary UDP datagrams of length 1..1500 (long/short-header-like "
@@ -243,24 +298,28 @@ def replay(ctx, obj):
     r = e2e.replay_run(c)
     print("REPLAY tool:", r.signature(), "| fault:", c.get("fault"))
     bad = r.crashed
-    if not bad:
-        class EP:
-            pass
-        eps = []
-        for e in c["endpoints"]:
-            ep = EP()
-            ep.cip, ep.cport, ep.sip, ep.sport = bytes.fromhex(e["cip"]), e["cport"], bytes.fromhex(e["sip"]), e["sport"]
-            eps.append(ep)
-        for i, ep in enumerate(eps[1:]):
-            fp = [list(map(lambda x: x.hex() if isinstance(x, bytes) else x, row)) for row in conv_fingerprint(r.out, ep)]
-            if fp != c["bystander_fp"][i]:
-                print("REPLAY-FAIL bystander", i + 1, "changed")
-                bad = True
-        if c.get("kind") in INFO_REMOVING:
-            (c2s, s2c), err = victim_streams(r.out, eps[0])
-            t = c["truth_victim"]
-            if err or not (bytes.fromhex(t["c2s"]).startswith(c2s) and bytes.fromhex(t["s2c"]).startswith(s2c)):
-                print("REPLAY-FAIL victim stream is not a prefix of its plaintext", err)
-                bad = True
+    if not bad and "baseline" in c:
+        b = e2e.replay_run(c["baseline"])
+        try:
+            pk, bp = wire.read_output(r.out), wire.read_output(b.out)
+            for i, e in enumerate(c["endpoints"]):
+                args = (bytes.fromhex(e["cip"]), e["cport"], bytes.fromhex(e["sip"]), e["proto"])
+                if i >= 1 and e2e.flow_packets(pk, *args) != e2e.flow_packets(bp, *args):
+                    print("REPLAY-FAIL bystander", i, "changed")
+                    bad = True
+            if c.get("kind") in INFO_REMOVING:
+                e = c["endpoints"][0]
+                rows = e2e.flow_packets(pk, bytes.fromhex(e["cip"]), e["cport"], bytes.fromhex(e["sip"]), e["proto"])
+                for di, from_server in enumerate((False, True)):
+                    mine = [row[10] for row in rows if row[10] and (row[3] == bytes.fromhex(e["sip"])) == from_server]
+                    t = c["truth_victim"][di]
+                    ok = (b"".join(mine) == bytes.fromhex(t)[:len(b"".join(mine))]) if isinstance(t, str) else \
+                        ([x.hex() for x in mine] == t[:len(mine)])
+                    if not ok:
+                        print("REPLAY-FAIL victim direction", di, "is not a prefix of its plaintext")
+                        bad = True
+        except wire.FrameError as ex:
+            print("REPLAY-FAIL", ex)
+            bad = True
     print("REPLAY", "fails" if bad else "passes")
     return 1 if bad else 0
